@@ -10,8 +10,10 @@ func run(r *core.Run) {
 	r.Rule = "path stream: key paths built from a component alphabet (.., ., empty, ordinary, look-alikes such as '..a', '...', reserved names) with / and \\ separators, run through the real directory back end inside a nested sandbox; " +
 		"a case is non-trivial when the path has at least one separator or dot component; distinct by path bytes. " +
 		"write-log stream: random histories (add key pair / symmetric key, set current, set state, destroy) on 5 rings of a real v2 key store over a logging back end (in-memory or directory); every Put is byte-scanned for the generated secrets and must be reproduced byte for byte by the model from (master key, contexts, secrets, nonces); " +
-		"swap stream: every ordered pair of ring files swapped / copied to a fresh path; forge stream: correctly re-signed rings with key data moved to another ring, slot or purpose; tamper stream: every byte of every ring file modified (3 values quick, all 255 thorough)"
+		"swap stream: every ordered pair of ring files swapped / copied to a fresh path; forge stream: correctly re-signed rings with key data moved to another ring, slot or purpose; tamper stream: every byte of every ring file modified (3 values quick, all 255 thorough); " +
+		"v1 write-log stream: every key-producing operation of a real v1 key store (valid ids incl. look-alikes such as 'alpha_hmac', rotations, poison and log keys; invalid ids with separators, '..', too short/long, non-ASCII) over a logging filesystem.Storage: every WriteFile is byte-scanned and must be reproduced by the model from (master key, key context, secret, nonce); every touched path must stay inside the key folder; every stored file is loaded under every other stored key context"
 	runPaths(r)
 	runDer(r)
 	runV2Store(r)
+	runV1Store(r)
 }
